@@ -281,3 +281,87 @@ class GenotypeHMM:
         if Z == 0:
             return None
         return [[[x / Z for x in post[i][c]] for c in range(C)] for i in range(N)]
+
+
+# --------------------------------------------------------------------------- phasing comparison
+
+def _perm_chain_min(ncols, perms_at, trans_cost, col_cost):
+    """min over sequences (pi_0..pi_{n-1}), pi_k in perms_at(k), of sum col_cost(k, pi_k) + sum trans_cost(pi_k, pi_{k+1})"""
+    prev = None
+    for k in range(ncols):
+        cur = {}
+        for pi in perms_at(k):
+            c = col_cost(k, pi)
+            if prev is None:
+                cur[pi] = c
+            else:
+                cur[pi] = c + min(v + trans_cost(q, pi) for q, v in prev.items())
+        if not cur:
+            return None
+        prev = cur
+    return min(prev.values()) if prev else 0
+
+
+def poly_switch_errors(ph0, ph1):
+    """Minimum number of haplotype switches (summed over haplotypes, divided by ploidy) needed to
+    turn phasing ph0 into ph1, restricted to positions where both have the same genotype.
+    ph*: list of ploidy sequences of alleles."""
+    p = len(ph0)
+    n = len(ph0[0])
+    cols = [k for k in range(n) if sorted(h[k] for h in ph0) == sorted(h[k] for h in ph1)]
+    allperms = list(itertools.permutations(range(p)))
+
+    def perms_at(i):
+        k = cols[i]
+        return [pi for pi in allperms if all(ph0[pi[j]][k] == ph1[j][k] for j in range(p))]
+
+    best = _perm_chain_min(len(cols), perms_at, lambda a, b: sum(1 for x, y in zip(a, b) if x != y), lambda i, pi: 0)
+    return (best or 0) / p, len(cols)
+
+
+def poly_switch_flip_total(ph0, ph1, switch_cost=1, flip_cost=1):
+    p = len(ph0)
+    n = len(ph0[0])
+    allperms = list(itertools.permutations(range(p)))
+    best = _perm_chain_min(n, lambda k: allperms,
+                           lambda a, b: switch_cost * sum(1 for x, y in zip(a, b) if x != y),
+                           lambda k, pi: flip_cost * sum(1 for j in range(p) if ph0[pi[j]][k] != ph1[j][k]))
+    return (best or 0) / p
+
+
+def poly_hamming(ph0, ph1):
+    p = len(ph0)
+    best = None
+    for pi in itertools.permutations(range(p)):
+        tot = sum(sum(1 for a, b in zip(ph1[j], ph0[pi[j]]) if a != b) for j in range(p))
+        best = tot if best is None else min(best, tot)
+    return best / p
+
+
+def diploid_orientation_errors(ph0, ph1):
+    """Diploid block with identical genotypes at every position: orientation o_k (0 same / 1 swapped;
+    None when the call is homozygous... cannot happen for het sites). Returns dict with switches,
+    (s, f) decomposition by run lengths, hamming and switch positions."""
+    n = len(ph0[0])
+    o = []
+    for k in range(n):
+        a = (ph0[0][k], ph0[1][k])
+        b = (ph1[0][k], ph1[1][k])
+        if a == b:
+            o.append(0)
+        elif a == (b[1], b[0]):
+            o.append(1)
+        else:
+            return None
+    changes = [int(o[k] != o[k + 1]) for k in range(n - 1)]
+    s = f = 0
+    run = 0
+    for c in changes + [0]:
+        if c:
+            run += 1
+        else:
+            f += run // 2
+            s += run % 2
+            run = 0
+    return {"switches": sum(changes), "s": s, "f": f, "hamming": min(sum(o), n - sum(o)),
+            "switch_positions": [k for k, c in enumerate(changes) if c], "orientation": o}
